@@ -229,6 +229,12 @@ func (k *Keys) ReadKey() (key rune, isAbort bool) {
 	k.mutex.RLock()
 	k.keysOnce = make(chan []byte)
 	k.reading = true
+
+	// Cursor position reports read below are passed on this channel, which
+	// does not exist yet if the shell has never had to wait for a key.
+	if k.cursor == nil {
+		k.cursor = make(chan []byte)
+	}
 	k.mutex.RUnlock()
 
 	defer func() {
